@@ -420,8 +420,7 @@ def run(tier):
     scfgs = sl.stream_cfgs("full") + [sl.SCfg("enc", ["--encrypt", "-q", "k.key"], {})]
     _G.update(b=b, pool=sl.Pool(v.seed), cfgs=scfgs, seed=v.seed)
     chunks = [(i, c) for i, c in enumerate(common.chunks(recs, 60))]
-    with multiprocessing.get_context("fork").Pool(common.NCPU) as p:
-        results = p.map(work, chunks, chunksize=1)
+    results = common.pool_map(work, chunks)
     traces, owners = [], []
     for r in results:
         v.count(r["evals"])
